@@ -536,3 +536,179 @@ func TestC06_KeyperChain(t *testing.T) {
 		rec.Case("keyperchain:"+c.Desc, nt, labels...)
 	})
 }
+
+// genC06Genuine builds a case the statement accepts: exactly t listed signers in ascending order, each
+// signature made by the listed key over the presented tuple.
+func genC06Genuine(rt *rapid.T) c06Case {
+	var c c06Case
+	c.Gnosis = rapid.Bool().Draw(rt, "gnosis")
+	c.N = rapid.IntRange(1, 4).Draw(rt, "n")
+	c.T = rapid.IntRange(1, c.N).Draw(rt, "t")
+	idLen := 32
+	if c.Gnosis {
+		idLen = 52
+	}
+	var ids [][]byte
+	for i, nid := 0, rapid.IntRange(1, 3).Draw(rt, "nid"); i < nid; i++ {
+		ids = append(ids, rapid.SliceOfN(rapid.Byte(), idLen, idLen).Draw(rt, fmt.Sprintf("id%d", i)))
+	}
+	sort.Slice(ids, func(i, j int) bool { return bytes.Compare(ids[i], ids[j]) < 0 })
+	c.Presented = sigTuple{Instance: simInstanceID, Eon: uint64(rapid.IntRange(0, 3).Draw(rt, "eon")), Slot: uint64(rapid.IntRange(0, 1000).Draw(rt, "slot")), TxPointer: uint64(rapid.IntRange(0, 1000).Draw(rt, "ptr")), Identities: ids}
+	perm := rapid.Permutation([]int{0, 1, 2, 3}[:c.N]).Draw(rt, "signerPerm")
+	for i := 0; i < c.T; i++ {
+		c.Signers = append(c.Signers, uint64(perm[i]))
+	}
+	sort.Slice(c.Signers, func(i, j int) bool { return c.Signers[i] < c.Signers[j] })
+	for _, s := range c.Signers {
+		tt := c.Presented.clone()
+		c.Sigs = append(c.Sigs, signTuple(c.Gnosis, tt, uni.Keys[s]))
+		c.SigSpecs = append(c.SigSpecs, sigSpec{Kind: "listed", Signer: int(s), Tuple: &tt})
+	}
+	fl := "service"
+	if c.Gnosis {
+		fl = "gnosis"
+	}
+	c.Desc = fmt.Sprintf("%s n=%d t=%d presented=%s signers=%v genuine", fl, c.N, c.T, c.Presented, c.Signers)
+	return c
+}
+
+// TestC06_Sequences presents several messages in a row to the same validators in the same process.
+// The statement judges a message by its own content and the keyper set; what was validated before
+// must not matter. Follow-ups reuse the signer list and the signature bytes of the first message
+// with a presented tuple that differs in one field, go back to the tuple the signatures were made
+// over, or repeat the message.
+func TestC06_Sequences(t *testing.T) {
+	rec := recorder("C06")
+	rec.AddRule("sequences: 2..5 messages presented in order to the same validator objects in one process (pure validators, access-node handler, and for a quarter of the sequences a keyper node's combined validator over pgfake); the first message is genuine (2/3) or a case of the single-message generator; follow-ups keep signer list and signature bytes and change one field of the presented tuple, return to the signed tuple, or repeat; oracle per step: the same reference predicate, independent of the steps before; non-trivial (sequences) = an accepted message is followed by one that differs in one field, or the reverse")
+	ctx := context.Background()
+	runRapid(t, N(500, 20000), func(rt *rapid.T) {
+		var c0 c06Case
+		if rapid.IntRange(0, 2).Draw(rt, "firstGenuine") > 0 {
+			c0 = genC06Genuine(rt)
+		} else {
+			c0 = genC06Case(rt)
+		}
+		idLen := 32
+		if c0.Gnosis {
+			idLen = 52
+		}
+		setupEon := c0.Presented.Eon
+		ks := c0.keyperSet()
+		key := fmt.Sprintf("%d/%d", c0.N, c0.T)
+		ek := c06EonKeys[key]
+		if ek == nil {
+			var err error
+			ek, err = testkeygen.NewEonKeys(newDetReader("c06-"+key), uint64(c0.N), uint64(c0.T))
+			if err != nil {
+				rt.Fatalf("eon keys: %v", err)
+			}
+			c06EonKeys[key] = ek
+		}
+		var an *gnosisaccessnode.DecryptionKeysHandler
+		if c0.Gnosis {
+			cfg := &gnosisaccessnode.Config{}
+			cfg.InstanceID = simInstanceID
+			cfg.MaxNumKeysPerMessage = 500
+			st := gnosisaccessnode.NewStorage()
+			st.AddEonKey(setupEon, ek.EonPublicKey())
+			st.AddKeyperSet(setupEon, ks)
+			an = gnosisaccessnode.NewDecryptionKeysHandler(cfg, st)
+		}
+		var node *simNode
+		if rapid.IntRange(0, 3).Draw(rt, "withKeyperNode") == 0 {
+			fl := flService
+			if c0.Gnosis {
+				fl = flGnosis
+			}
+			node = newSimNode(fl, 0, 8)
+			defer node.Close()
+			es := &eonSetup{KeyperConfigIndex: int(setupEon), Eon: 50, Activation: 10, Members: seq(c0.N), Threshold: c0.T, Keys: ek}
+			if err := writeBatchConfigAndEon(ctx, node.DB, es, true); err != nil {
+				rt.Fatalf("setup: %v", err)
+			}
+			if err := writeDKGResult(ctx, node.DB, es, 0, true); err != nil {
+				rt.Fatalf("setup: %v", err)
+			}
+		}
+		steps := rapid.IntRange(2, 5).Draw(rt, "steps")
+		cur := c0
+		var desc []string
+		prevWant, prevTuple := false, sigTuple{}
+		nontrivial := false
+		for k := 0; k < steps; k++ {
+			kind := "first"
+			if k > 0 {
+				kind = rapid.SampledFrom([]string{"one-field", "one-field", "one-field", "back-to-signed", "back-to-signed", "repeat"}).Draw(rt, fmt.Sprintf("follow%d", k))
+				switch kind {
+				case "one-field":
+					var f string
+					cur.Presented, f = mutateTuple(rt, fmt.Sprintf("f%d", k), cur.Presented, cur.Gnosis, idLen)
+					kind += ":" + f
+				case "back-to-signed":
+					for _, sp := range cur.SigSpecs {
+						if sp.Tuple != nil {
+							cur.Presented = sp.Tuple.clone()
+							break
+						}
+					}
+				}
+			}
+			want := cur.expected()
+			keysFor := func(id []byte) []byte {
+				k, err := ek.EpochSecretKey(identitypreimage.IdentityPreimage(id))
+				if err != nil {
+					panic(err)
+				}
+				return k.Marshal()
+			}
+			msg := cur.message(keysFor)
+			where := fmt.Sprintf("step %d (%s) presented=%s", k, kind, cur.Presented)
+			judge := func(target string, got bool, p any, want bool) {
+				if p != nil {
+					return // crashes are C05's subject
+				}
+				if got && !want {
+					fatalf(rt, "accepted-without-threshold-signatures", "%s accepted, in %s, a keys message the rule forbids (messages presented before: %v)\nfirst: %s", target, where, desc, c0.Desc)
+				}
+				if !got && want {
+					fatalf(rt, "valid-signatures-rejected", "%s rejected, in %s, a keys message with a genuine threshold of signatures (messages presented before: %v)\nfirst: %s", target, where, desc, c0.Desc)
+				}
+			}
+			got, p := runValidator(func() (pubsub.ValidationResult, error) {
+				if cur.Gnosis {
+					return gnosis.ValidateDecryptionKeysSignatures(msg, msg.Extra.(*p2pmsg.DecryptionKeys_Gnosis).Gnosis, ks)
+				}
+				return shutterservice.ValidateDecryptionKeysSignatures(msg, msg.Extra.(*p2pmsg.DecryptionKeys_Service).Service, ks)
+			})
+			judge("the signature validator", got, p, want)
+			sorted := sort.SliceIsSorted(cur.Presented.Identities, func(i, j int) bool {
+				return bytes.Compare(cur.Presented.Identities[i], cur.Presented.Identities[j]) < 0
+			})
+			chainWant := want && cur.Presented.Instance == simInstanceID && sorted && cur.Presented.Eon == setupEon
+			if an != nil {
+				got, p := runValidator(func() (pubsub.ValidationResult, error) { return an.ValidateMessage(ctx, msg) })
+				judge("the access node", got, p, chainWant)
+			}
+			if node != nil {
+				v := node.Validate(msg.Topic(), mustMarshalP2P(msg))
+				if !checkEngine(t, rec, node.DB) {
+					rt.Fatalf("inconclusive")
+				}
+				judge("the keyper validator chain", v.Accepted(), v.Panicked, chainWant)
+			}
+			if k > 0 && want != prevWant && !cur.Presented.equal(prevTuple, cur.Gnosis) {
+				nontrivial = true
+			}
+			prevWant, prevTuple = want, cur.Presented.clone()
+			desc = append(desc, fmt.Sprintf("%s=%v", kind, want))
+		}
+		labels := []string{"sequence"}
+		if nontrivial {
+			labels = append(labels, "sequence:verdict-flips-with-same-signatures")
+		}
+		if node != nil {
+			labels = append(labels, "sequence:keyper-chain")
+		}
+		rec.Case(fmt.Sprintf("seq %v first: %s", desc, c0.Desc), nontrivial, labels...)
+	})
+}
